@@ -267,6 +267,37 @@ def run(ctx):
                     ctx.check(not acc, "R8.4", inst, fin.loc(),
                               "in linter mode the trace ends with %d open %s region(s) on a thread and %s still "
                               "succeeds" % (n, cs["names"].get(ch), fin.name))
+        # several threads: an open region on any thread of the trace is reported, wherever the clean threads
+        # come in the global list
+        for ch in lint_ch:
+            for opens in ((0, 2), (2, 0), (0, 0, 1), (0, 1, 0)):
+                nt = len(opens)
+                store = {("EMU", F("emu", "finished")): INT(1),
+                         ("EMU", F("emu", "args") + F("emu_args", "linter_mode")): INT(1),
+                         ("EMU", F("emu", "system") + F("system", "threads")): PTR("T0")}
+                for ti, nopen in enumerate(opens):
+                    store[("T%d" % ti, F("thread", "gnext"))] = PTR("T%d" % (ti + 1)) if ti + 1 < nt else NULL
+                    store[("T%d" % ti, F("thread", "tid"))] = INT(7 + ti)
+                    for k in range(cs["nch"]):
+                        store[("CHARR:MTH:T%d" % ti, (k,) + STK + F("chan_stack", "n"))] = INT(nopen if k == ch else 0)
+                        store[("CHARR:MTH:T%d" % ti, (k,) + F("chan", "type"))] = INT(prog.enum_val("CHAN_STACK"))
+
+                def unk3(cal, args, f, e):
+                    if cal == "extend_get":
+                        a0 = args[0]
+                        return [PTR("MTH:%s" % (a0[1] if a0[0] == "ptr" else "?"))]
+                    return unk(cal, args, f, e)
+                ex3 = absint.Explorer(prog, effects=eff, inline=lambda nm, dd: dd.file == fin.file and
+                                      dd.name in ("end_lint",) or dd.name == "chan_read",
+                                      on_unknown_call=unk3, loop_bound=nt + 2, max_paths=50000,
+                                      field_values={("model_thread", "ch"): lambda loc: PTR("CHARR:%s" % loc[0], (0,))})
+                outs = ex3.run(fin, [PTR("EMU")], store)
+                acc = [o for o in outs if o.kind == "ret" and o.ret == INT(0)]
+                ctx.check(bool(outs) and not acc, "R8.4",
+                          "%s:lint:ch%d(%s):threads-open=%s" % (m.name, ch, cs["names"].get(ch), "".join(map(str, opens))),
+                          fin.loc(), "in linter mode, with threads holding %s open %s region(s) in list order, %s "
+                          "succeeds: an open region on a thread that follows a clean one is not reported" %
+                          (list(opens), cs["names"].get(ch), fin.name))
         ef = errflow.ErrFlow(prog, main, registry=reg)
         ef.propagates(fin)
         for (g, c, where, ok, detail) in ef.checked_sites:
@@ -310,3 +341,19 @@ def _guard(g, running, active, out):
     if g == "any":
         return True
     raise ValueError(g)
+
+
+_run_base = run
+
+
+def run(ctx):
+    _run_base(ctx)
+    prog = ctx.prog
+    ctx.rule("R8.6", "what the timeline shows is fed through the multiplexers: when the selection changes the previously "
+             "selected input is disconnected whatever its index (C06 R6.4's evaluation of cb_select), otherwise a thread "
+             "that left a CPU keeps driving that CPU's subsystem row; a model's duplicate table reaches its thread "
+             "channels (nested identical regions are legal where the model says so)")
+    from rules import round3
+    round3.share(ctx, "R8.6", "C06", lambda i_: i_["rule"] == "R6.4" and i_["inst"].startswith("cb_select:"), "mux:",
+                 "open regions are shown on a CPU or thread row that no longer runs them", 4)
+    round3.check_dup_table_on_thread_spec(ctx, "R8.6")
